@@ -393,7 +393,15 @@ pub fn run_parse(case: &Value) -> ParseOut {
             .unwrap_or_default();
         let ctx = html5ever::tree_builder::create_element(&sink, QualName::new(None, ns, local), ctx_attrs);
         sink.ev(json!({"ev":"context","id":ctx.id}));
-        let tb = TreeBuilder::new_for_fragment(sink, ctx, None, tbopts);
+        // optionally a caller-supplied form owner (a form element that is not part of the fragment)
+        let form = if case["form_owner"].as_bool().unwrap_or(false) {
+            let f = html5ever::tree_builder::create_element(&sink, QualName::new(None, ns_from_tag("html"), LocalName::from("form")), vec![]);
+            sink.ev(json!({"ev":"context","id":f.id}));
+            Some(f)
+        } else {
+            None
+        };
+        let tb = TreeBuilder::new_for_fragment(sink, ctx, form, tbopts);
         topts.initial_state = Some(tb.tokenizer_state_for_context_elem(scripting));
         tb
     } else {
